@@ -473,6 +473,8 @@ impl World {
                 // (head, at the event's reading) and after (tail, d later).
                 let d = op["d"].as_u64().unwrap();
                 let take = op["take"].as_u64().unwrap() as usize;
+                let xa = op.get("xa").and_then(|x| x.as_bool()).unwrap_or(false)
+                    && matches!(self.cache.as_ref().unwrap(), AnyCache::S(_));
                 let clock = self.clock.clone();
                 let (mut head, mut tail): (Vec<(u32, u32)>, Vec<(u32, u32)>) = (Vec::new(), Vec::new());
                 match self.cache.as_mut().unwrap() {
@@ -494,6 +496,11 @@ impl World {
                             }
                         }
                         clock.advance(Duration::from_secs(d));
+                        if xa {
+                            // the owner of the iterator calls invalidate_all() while it is alive
+                            // (the call does not touch the map, so the API permits it)
+                            c.invalidate_all();
+                        }
                         tail.extend(it.map(|e| (e.key().id, e.value().id)));
                     }
                 }
@@ -504,6 +511,9 @@ impl World {
                 let js = |v: &Vec<(u32, u32)>| Value::Array(v.iter().map(|(k, v)| json!({"k": k, "v": v})).collect());
                 ev.insert("head".into(), js(&head));
                 ev.insert("tail".into(), js(&tail));
+                if xa {
+                    ev.insert("xa".into(), json!(true));
+                }
             }
             "Sync" => match self.cache.as_mut().unwrap() {
                 AnyCache::U(_) => {}
